@@ -1085,13 +1085,16 @@ class PathSim:
             if v is not None:
                 st.dmap[key] = v
                 st.decisions.append((atom, v))
+                st.events.append(Event('decide', node, frame[0], text=text, value=v, extra=atom, ep=st.ep, loops=st.loops))
                 return [(v, st, None)]
         s_t = st
         s_f = st.fork()
         s_t.dmap[key] = True
         s_t.decisions.append((atom, True))
+        s_t.events.append(Event('decide', node, frame[0], text=text, value=True, extra=atom, ep=s_t.ep, loops=s_t.loops))
         s_f.dmap[key] = False
         s_f.decisions.append((atom, False))
+        s_f.events.append(Event('decide', node, frame[0], text=text, value=False, extra=atom, ep=s_f.ep, loops=s_f.loops))
         self._count += 1
         return [(True, s_t, None), (False, s_f, None)]
 
